@@ -366,6 +366,71 @@ func execZero(h string) string {
 	return "reply:" + hlib.Hex(reply)
 }
 
+func cksum(b []byte) uint32 {
+	var a uint64
+	for _, x := range b {
+		a = (a*31 + uint64(x)) % 4294967296
+	}
+	return uint32(a)
+}
+
+// execEcho sends ECHO/PING commands (inline or arrays, lines of any length) on a fresh connection
+// of the real server, half-closes and canonicalises the reply stream: `pong`, `bulk<len>/<cksum>`,
+// `err:<text>`.
+func execEcho(h string) string {
+	data := hlib.UnHex(h)
+	s := ensureServer()
+	c, err := net.DialTimeout("tcp", s.addr, 2*time.Second)
+	if err != nil {
+		return "dial-failed"
+	}
+	defer c.Close()
+	go func() {
+		c.Write(data)
+		if tc, ok := c.(*net.TCPConn); ok {
+			tc.CloseWrite()
+		}
+	}()
+	c.SetReadDeadline(time.Now().Add(20 * time.Second))
+	r := bufio.NewReaderSize(c, 1<<16)
+	var out []string
+	for {
+		hdr, err := readReplyLine(r)
+		if err != nil {
+			break
+		}
+		switch {
+		case hdr == "+PONG":
+			out = append(out, "pong")
+		case strings.HasPrefix(hdr, "$"):
+			n, err := strconv.Atoi(hdr[1:])
+			if err != nil || n < 0 {
+				out = append(out, "odd:"+strings.ReplaceAll(hdr, " ", "_"))
+				continue
+			}
+			buf := make([]byte, n+2)
+			if _, err := io.ReadFull(r, buf); err != nil {
+				out = append(out, "short-bulk")
+				continue
+			}
+			out = append(out, fmt.Sprintf("bulk%d/%d", n, cksum(buf[:n])))
+		case strings.HasPrefix(hdr, "-"):
+			out = append(out, "err:"+strings.ReplaceAll(hdr[1:], " ", "_"))
+		default:
+			out = append(out, "odd:"+strings.ReplaceAll(hdr, " ", "_"))
+		}
+	}
+	select {
+	case <-s.exited:
+		return "crash"
+	case <-time.After(20 * time.Millisecond):
+	}
+	if len(out) == 0 {
+		return "none"
+	}
+	return strings.Join(out, ",")
+}
+
 // ---------------------------------------------------------------- C29: commands over TCP
 
 type client struct {
@@ -548,7 +613,7 @@ func (e *engine) Rule() string {
 	if e.prop == "C29" {
 		return "C29: command sequences (8–40 commands) over 3 keys plus the empty key on one connection to the real server; values: integers at the int64 limits, blank/odd numerals, arbitrary bytes; ~18% of the steps are INCRBY/DECRBY pairs with stored value and delta both from {MinInt64, MinInt64+1, -1, 0, 1, MaxInt64-1, MaxInt64}; SET with NX/XX and EX/PX/EXAT/PXAT far in the past or future; non-trivial = a key is accessed again after it was given an expiry or written conditionally, or an INCR-family command answers an integer/overflow error"
 	}
-	return "C31: byte streams for parseRESP: well-formed arrays and inline commands, truncated/mutated frames, declared array and bulk lengths from -2^63 to 10^30 (small, 32 MiB–512 MiB, ≥ 32 GiB, > maxAlloc), random protocol bytes; every other case also sends zero-argument frames (`*0`, `*-1`, blank and white-space-only lines) plus PING to the real server over TCP (must answer +PONG); non-trivial = the stream is not a plain well-formed one (the parse ends with an error other than a clean EOF, or is unsafe)"
+	return "C31: byte streams for parseRESP: well-formed arrays and inline commands, truncated/mutated frames, declared array and bulk lengths from -2^63 to 10^30 (small, 32 MiB–512 MiB, ≥ 32 GiB, > maxAlloc), random protocol bytes; inline commands and frame header lines of 4094–4098, 8 KiB±1 and 64 KiB±1 bytes (bufio's buffer sizes), also as ECHO/PING traffic over TCP to the real server with the exact replies compared; every other case also sends zero-argument frames (`*0`, `*-1`, blank and white-space-only lines) plus PING to the real server over TCP (must answer +PONG); non-trivial = the stream is not a plain well-formed one (the parse ends with an error other than a clean EOF, or is unsafe)"
 }
 
 func (e *engine) Exec(ops []string) []string {
@@ -572,6 +637,9 @@ func (e *engine) Exec(ops []string) []string {
 			out[i] = execConn(f[1])
 			stats["ms_conn"] += int(time.Since(t0).Milliseconds())
 			stats["n_conn"]++
+		case len(f) == 2 && f[0] == "echo":
+			out[i] = execEcho(f[1])
+			stats["n_echo"]++
 		case len(f) == 2 && f[0] == "zero":
 			out[i] = execZero(f[1])
 			stats["n_zero"]++
